@@ -35,7 +35,7 @@ EXPECTED_ACK_MSG = "Invalid message received. Expected: connection_ack"
 # frames
 def wire(frame) -> str:
     """frame = ("t", text) | ("j", json value) -> the text sent by the server"""
-    return frame[1] if frame[0] == "t" else json.dumps(frame[1])
+    return frame[1] if frame[0] in ("t", "raw") else json.dumps(frame[1])   # "raw": str or bytes as delivered
 
 
 def frame_sx(frame):
